@@ -12,6 +12,9 @@ Oracle ops for the `dec` family (C05): the resumable scanners and the refill loo
   dec stream <opts: bit0 allowDup, bit1 allowInvalidUTF8> <n> <event>*                → the results of n ReadToken calls of the
         streaming decoder model (Model/Stream.lean); event = hex chunk | `-` empty chunk | `F` fault | `E` eof;
         results joined by `;`: `T<kind>:<start>:<stop>` | `X<class>:<offset>` | `F`
+  dec script <opts> <calls: a word over T V S = ReadToken ReadValue SkipValue> <event>*   → the results of the script on the
+        streaming model; a value is `T<kind>:<start>:<stop>`, a SkipValue `S:<stop>`
+  dec wscript <opts> <calls> <hex>                             → the same script on the whole-buffer model
   dec whole <opts> <n> <hex>                                   → the same calls on the whole-buffer model (TokenLoop)
 err ∈ ok | eof | char | esc | utf8
 -/
@@ -38,6 +41,14 @@ def outStr : Stream.Out → String
   | .fault => "F"
   | .err off e => s!"X{wireErrStr e}:{off}"
   | .tok k a b => s!"T{k.toNat}:{a}:{b}"
+  | .skip b => s!"S:{b}"
+
+def parseCalls (s : String) : Option (List Stream.Call) :=
+  s.toList.mapM fun c =>
+    if c == 'T' then some Stream.Call.readToken
+    else if c == 'V' then some Stream.Call.readValue
+    else if c == 'S' then some Stream.Call.skipValue
+    else none
 
 def parseEvents (args : List String) : Option (List Stream.Event) :=
   args.mapM fun a =>
@@ -90,6 +101,14 @@ def handle (op : String) (args : List String) : String :=
   | "stream", o :: n :: evs =>
     match o.toNat?, n.toNat?, parseEvents evs with
     | some o, some n, some es => ";".intercalate ((Stream.run (vopts o) n (Stream.init es)).map outStr)
+    | _, _, _ => badArgs
+  | "script", o :: cs :: evs =>
+    match o.toNat?, parseCalls cs, parseEvents evs with
+    | some o, some cs, some es => ";".intercalate ((Stream.runScript (vopts o) cs (Stream.init es)).map outStr)
+    | _, _, _ => badArgs
+  | "wscript", [o, cs, h] =>
+    match o.toNat?, parseCalls cs, bytesOfHex h with
+    | some o, some cs, some b => ";".intercalate ((Stream.wholeScript (vopts o) cs { r := b }).map outStr)
     | _, _, _ => badArgs
   | "whole", [o, n, h] =>
     match o.toNat?, n.toNat?, bytesOfHex h with
